@@ -20,6 +20,7 @@ future and polls both in the same select!, and the `stopped` arm leads to an Err
 pass write_response (the handler future, a coroutine local, is dropped there); after a response the
 handler finishes the stream and awaits `stopped`; request tasks live in a JoinSet local to the
 connection handler, which is shut down on every path from loop exit to return.
+Nothing on the request path, including the typed-RPC layer, spawns (closed world of task creation, C08.7 re-evaluated).
 """
 TRUSTED = ["quinn: reset()/stop propagate to the peer's stopped()/read", "tokio JoinSet aborts its tasks when dropped or shut down"]
 NOT_DECIDED = ["promptness of remote cancellation", "QUIC stream-credit accounting over long histories", "abandonment at every instant (schedule quantifier)"]
